@@ -97,7 +97,41 @@ fn sort_members(idl: &mut Idl) {
     idl.errors.sort_by(|a, b| a.name.as_bytes().cmp(b.name.as_bytes()));
 }
 
+/// An interface name drawn from the whole grammar rule `interface_name` of varlink_grammar.rs, mirrored exactly:
+///   first label   [A-Za-z] ( '-'* [A-Za-z0-9] )*
+///   1.. more      '.' [A-Za-z0-9] ( '-'* [A-Za-z0-9] )*
+/// (later labels may start with a digit or be a single digit; hyphens only inside a label, also doubled; upper case anywhere).
+pub fn gen_iface_name(rng: &mut Rng) -> String {
+    const LETTERS: &[u8] = b"abcdefghijklmnopqrstuvwxyzABCDEFGHIJKLMNOPQRSTUVWXYZ";
+    const ALNUM: &[u8] = b"abcdefghijklmnopqrstuvwxyzABCDEFGHIJKLMNOPQRSTUVWXYZ0123456789";
+    fn tail(rng: &mut Rng, s: &mut String) {
+        let groups = *rng.pick(&[0usize, 0, 1, 2, 3, 6]);
+        for _ in 0..groups {
+            for _ in 0..*rng.pick(&[0usize, 0, 0, 1, 1, 2]) {
+                s.push('-');
+            }
+            s.push(*rng.pick(ALNUM) as char);
+        }
+    }
+    let mut s = String::new();
+    s.push(*rng.pick(LETTERS) as char);
+    tail(rng, &mut s);
+    let labels = *rng.pick(&[1usize, 1, 2, 2, 3, 5]);
+    for _ in 0..labels {
+        s.push('.');
+        // bias towards the corner the first label does not have: a leading digit
+        if rng.chance(1, 2) {
+            s.push(*rng.pick(b"0123456789") as char);
+        } else {
+            s.push(*rng.pick(ALNUM) as char);
+        }
+        tail(rng, &mut s);
+    }
+    s
+}
+
 pub fn benign(rng: &mut Rng, k: usize, opts: &GenOpts) -> Idl {
+    let iface = if k % 2 == 1 { gen_iface_name(rng) } else { format!("org.example.g{}", k) };
     loop {
         let nt = *rng.pick(&[0usize, 1, 2, 2, 3, 4]);
         let nm = *rng.pick(&[0usize, 1, 1, 2, 3, 4]);
@@ -132,7 +166,7 @@ pub fn benign(rng: &mut Rng, k: usize, opts: &GenOpts) -> Idl {
             .iter()
             .map(|n| ErrorDef { name: n.clone(), parm: { let n = rng.below(3); gen_fields(rng, depth.min(2), &tnames, &tnames, n, opts.anon_in_errors) } })
             .collect();
-        let mut idl = Idl { name: format!("org.example.g{}", k), types, methods, errors };
+        let mut idl = Idl { name: iface.clone(), types, methods, errors };
         sort_members(&mut idl);
         if !has_dup_items(&idl) {
             return idl;
@@ -393,7 +427,19 @@ pub fn mutate_text(rng: &mut Rng, text: &str) -> (String, &'static str) {
             let idx = text.rfind("\n\n").unwrap_or(0);
             (format!("{}{}", text, &text[idx..]), "duplicate-member")
         }
-        5 => (text.replacen("interface org.example.", "interface org_example.", 1), "bad-interface-name"),
+        5 => {
+            // something the rule `interface_name` does not admit: `_`, a label ending or starting with `-`, an empty label,
+            // a single label, a first label starting with a digit
+            let bad = *rng.pick(&["a_b.c", "a-.b", "a.-b", "a..b", "single", "1a.b", "a.b.", ".a.b", "a.b-"]);
+            match text.find("interface ") {
+                Some(p) => {
+                    let rest = &text[p + 10..];
+                    let end = rest.find(|c: char| c.is_whitespace() || c == '#').unwrap_or(rest.len());
+                    (format!("{}interface {}{}", &text[..p], bad, &rest[end..]), "bad-interface-name")
+                }
+                None => (format!("interface {}\n{}", bad, text), "bad-interface-name"),
+            }
+        }
         6 => (format!("{}\nmethod Zz(a: ??int) -> ()\n", text), "double-option"),
         7 => (format!("{}\nmethod Zz(a: int b: int) -> ()\n", text), "missing-comma"),
         8 => (format!("{}\nmethod Zz(a: int) - > ()\n", text), "bad-arrow"),
